@@ -39,7 +39,7 @@ var c12Grid = func() []meta.Config {
 }()
 
 func init() {
-	register(&Prop{ID: "C12", N: diffN, Quick: 4000, Variants: cpuVariants,
+	register(&Prop{ID: "C12", Witness: true, N: diffN, Quick: 4000, Variants: cpuVariants,
 		Assume: []string{"the directly driven nfa.PikeVM (NewDefaultCompiler + NewPikeVM, enumeration by stdlib's resume rule) is the plain NFA simulation", "CPU masks via GODEBUG are honoured by golang.org/x/sys/cpu (flags recorded in evidence)"},
 		Rule:   "cases G(D,i); each pattern is compiled under the default configuration and under 5 index-chosen configurations of the grid EnableDFA × EnablePrefilter × MaxDFAStates{1,2,16,10000} × DeterminizationLimit{10,1000} × MinLiteralLen{1,2,3,8,64} × MaxLiterals{1,2,8,64,256,1000} × MaxRecursionDepth{100,1000} × ASCII optimisation (only configurations passing Validate()); Match, FindIndex, FindSubmatchIndex and FindAllIndex(-1) must agree with the default configuration and with the driven PikeVM; the whole run is repeated under three CPU masks and per-case result digests are compared across the three processes; one evaluation = one compared result; distinct_nontrivial = distinct (pattern, configuration, haystack) triples with a match",
 		Triage: triageC12,
